@@ -1961,6 +1961,18 @@ func (x *Extractor) EquivByCases(a, b *RF, depth int) bool {
 			}
 		}
 	}
+	// whether a quantity is NaN decides how its comparisons behave: settle that first
+	for _, r := range []*RF{a, b} {
+		for _, at := range r.Atoms(true) {
+			if at.Name == "math.IsNaN" && len(at.Args) == 1 && at.Args[0].SingleAtom() != nil {
+				cond = x.S.atomRF(at.ID)
+				break
+			}
+		}
+		if cond != nil && cond.SingleAtom().Name == "math.IsNaN" {
+			break
+		}
+	}
 	if cond == nil {
 		if x.S.BoolEquiv(a, b) {
 			return true
@@ -1995,7 +2007,7 @@ func (x *Extractor) EquivByCases(a, b *RF, depth int) bool {
 			return x.EquivByCases(x.SimplifyUnder(a, as), x.SimplifyUnder(b, as), depth+1)
 		}
 		regions := []int{-1, 0, 1}
-		if !x.S.Integral(d) {
+		if !x.S.Integral(d) && !x.knownOrdered(d) {
 			regions = append(regions, 2) // unordered (NaN)
 		}
 		for _, reg := range regions {
@@ -2048,7 +2060,64 @@ func (x *Extractor) EquivByCases(a, b *RF, depth int) bool {
 		if len(x.caseAssume) > 0 && !x.caseFeasible(as) {
 			continue
 		}
-		if !x.EquivByCases(x.SimplifyUnder(a, as), x.SimplifyUnder(b, as), depth+1) {
+		// in the case "x is not NaN" the comparisons of x are ordered
+		var nn *Atom
+		if la != nil && la.Name == "math.IsNaN" && len(la.Args) == 1 && !truth {
+			nn = la.Args[0].SingleAtom()
+		}
+		if nn != nil {
+			if x.caseNotNaN == nil {
+				x.caseNotNaN = map[AtomID]int{}
+			}
+			x.caseNotNaN[nn.ID]++
+		}
+		same := x.EquivByCases(x.SimplifyUnder(a, as), x.SimplifyUnder(b, as), depth+1)
+		if nn != nil {
+			x.caseNotNaN[nn.ID]--
+		}
+		if !same {
+			return false
+		}
+	}
+	return true
+}
+
+// knownOrdered: every float quantity d is built from is, in the current case,
+// known not to be NaN (so the two sides of a comparison with difference d are
+// ordered: the "unordered" case cannot occur). Only plain sums of such
+// quantities and constants qualify.
+func (x *Extractor) knownOrdered(d *RF) bool {
+	if c, ok := d.D.isConst(); !ok || c.Sign() == 0 {
+		return false
+	}
+	for _, t := range d.N.terms {
+		for i, v := range t.vars {
+			if t.exps[i] != 1 || len(t.vars) != 1 {
+				return false
+			}
+			at := x.S.atoms[v]
+			if x.S.atomIntegral(at) {
+				continue // integer-valued quantities (also with the fractional coefficients a substitution leaves)
+			}
+			if x.caseNotNaN[v] > 0 {
+				continue
+			}
+			// a choice between quantities known not to be NaN
+			if at.Name == "ite" && len(at.Args) == 3 {
+				ok := true
+				for _, br := range at.Args[1:] {
+					ba := br.SingleAtom()
+					if c, isC := br.IsConst(); isC && c != nil {
+						continue
+					}
+					if ba == nil || !(x.S.atomIntegral(ba) || x.caseNotNaN[ba.ID] > 0) {
+						ok = false
+					}
+				}
+				if ok {
+					continue
+				}
+			}
 			return false
 		}
 	}
